@@ -58,6 +58,7 @@ type HistCfg struct {
 	// follow-up probes
 	PreReset          bool // sample `reflog` before every reset
 	Idempotent        bool // repeat a successful add and demand that nothing changes
+	ReadBackCommit    bool // after a successful commit: `log -n 2` and `cat-file -p <commit>`
 	JunkSweep         bool // every 8th history ends with the whole table of malformed invocations
 	StatusAfterCommit bool // `status` right after a successful commit must list nothing staged
 	CommitFirst       bool // start with one commit
@@ -350,6 +351,18 @@ func (h *Hist) probes(t *Trans) {
 			}
 		} else {
 			h.addViol(t2, "clean-after-commit", "status failed right after a successful commit: "+clip(t2.Res.Stderr, 120))
+		}
+	}
+	if cfg.ReadBackCommit && ok && t.Args[0] == "commit" {
+		// read the new commit back the way a user does: `log` (under another time zone than it was made in,
+		// half of the time) and `cat-file -p`
+		if id := t.Post.headCommit(); id != "" {
+			tz2 := t.TZ
+			if h.r.chance(1, 2) {
+				tz2 = h.r.pick3(0, 19800, -12600)
+			}
+			h.X(tz2, "log", "-n", "2")
+			h.X(tz2, "cat-file", "-p", id)
 		}
 	}
 	if cfg.CatTrees && ok && t.Args[0] == "commit" {
